@@ -115,8 +115,18 @@ class Ctx:
                 return
         self.violations.append({"kind": kind, "case": case, "detail": detail})
 
+    def require(self, what: str, count: int, minimum: int = 1) -> None:
+        """vacuity guard: a leg that judged fewer than `minimum` cases did not decide anything - a machinery failure, never a pass"""
+        from .tlc import MachineryError
+
+        self.notes.setdefault("legs_judged", {})[what] = count
+        if count < minimum:
+            raise MachineryError(f"{self.prop}: leg '{what}' judged only {count} cases (needs >= {minimum}): vacuous run")
+
     def finish(self) -> int:
         wall = time.time() - self.t0
+        self.require("whole check: implementation executions", self.traces, 1)
+        self.require("whole check: non-trivial cases", len(self.nontrivial), 1)
         rc = 0
         for k, v in self.known_hits.items():
             print(f"KNOWN-FINDING: property={self.prop} {k} {v['what']} (x{v['count']})")
